@@ -465,7 +465,7 @@ def run(ck, prog, tier):
         outs = it_.run(fn, args)
         all_out += outs
         ck.saw('paths', '%s[%s]: %d paths' % (fn.qualname, mode, len(outs)))
-        main_union, early_union = set(), set()
+        main_union, early_union, main_exact = set(), set(), set()
         n_main = 0
         for o in outs:
             if o.kind != 'return':
@@ -478,20 +478,37 @@ def run(ck, prog, tier):
             is_early = isinstance(o.value, Tup) and len(o.value.items) == 3 and all(
                 isinstance(x, Sym) and x.is_const() for x in o.value.items)
             conds = []
-            cut = 0
-            for c, t in st.path:
+            cut = None
+            for k_, (c, t) in enumerate(st.path):
                 nc = motion.norm_path_cond(c, t)
                 if nc is None:
                     if is_early:
                         raise AnalysisError('calculate_lm: non-numeric condition in the prologue: '
                                             '%r' % (c,))
-                    break
-                if not is_early and motion.identify(nc[0], base_q, []) is None:
-                    break
+                    if cut is None:
+                        cut = k_
+                    continue
+                atoms_ = nc[0].all_atoms()
+                plain = all(a[0] == 'v' and a[1] in ('steps', 'rate', 'accel') for a in atoms_)
+                if not is_early and motion.identify(nc[0], base_q, []) is None and not plain:
+                    # not a sign test of steps / rate / accel: the prologue ends here; later
+                    # sign tests still restrict the sign cases this path can be taken in
+                    if cut is None:
+                        cut = k_
+                    continue
                 conds.append(nc)
-                cut += 1
+            if cut is None:
+                cut = len(st.path)
+            over_approx = False
             try:
                 allowed = motion.sign_cases_of_path(conds, base_q)
+                if not allowed and not is_early:
+                    # the relational tests have no solution on the small grid of the point
+                    # oracle: classify by the sign tests alone (an over-approximation)
+                    allowed = motion.sign_cases_of_path(
+                        [nc_ for nc_ in conds if motion.identify(nc_[0], base_q, []) is not None],
+                        base_q)
+                    over_approx = True
             except KeyError as exc:
                 ck.ob('C03-D1-cannot-move', 'calculate_lm[%s]::prologue-quantity' % mode, False,
                       'the validity prologue tests %r, not the sign of steps, rate or accel'
@@ -516,6 +533,8 @@ def run(ck, prog, tier):
                 continue
             n_main += 1
             main_union |= allowed
+            if not over_approx:
+                main_exact |= allowed
             main_paths.append((o, cut, mode))
             mirrored = all(t[0] < 0 for t in allowed)
             if not mirrored and any(t[0] < 0 for t in allowed):
@@ -619,7 +638,7 @@ def run(ck, prog, tier):
         for t in itertools.product((-1, 0, 1), repeat=3):
             if cannot_move(t):
                 ck.ob('C03-D1-cannot-move', 'calculate_lm[%s]::cannot-move%s' % (mode, list(t)),
-                      t in early_union and t not in main_union,
+                      t in early_union and t not in main_exact,
                       'sign case (steps, rate, accel) = %s cannot move but reaches the '
                       'computation instead of returning (0,0,0)' % (list(t),), fn.loc(),
                       key='calculate_lm::early-missing')
